@@ -297,13 +297,21 @@ func classify(sc *Scenario) (k klass, want map[string][]byte, wantDirs map[strin
 		}
 		switch e.T {
 		case "h":
-			// a hard link must name a regular file that precedes it
+			// a hard link must name a regular file that precedes it; then it is one
+			// more name of that regular file (tool-chain archives use this: bin/clang-19
+			// = bin/clang) and must be there with the same bytes.  Zip has no such entry.
 			tgt := strings.TrimPrefix(path.Clean("/d/"+e.Link), "/d/")
-			if !isFile[tgt] {
-				k.illform = true
-			}
 			k.links = true
-			continue
+			if !isFile[tgt] || rel == "" || rel == tgt {
+				k.illform = true
+				continue
+			}
+			if sc.Format == "zip" {
+				continue
+			}
+			want[rel] = want[tgt]
+			isFile[rel] = true
+			delete(linkNames, rel) // a regular file from here on
 		case "l":
 			k.links = true
 			continue
@@ -647,18 +655,24 @@ func (prop) Run(scx driver.Scenario, ch *sim.Choices, keep bool) *driver.Result 
 	if kl.illform {
 		res.Probes["archive-illformed"]++
 	}
-	anyFault := len(sc.Debris) > 0
+	// Debris is what a process that died earlier left behind: the faults are over,
+	// every request of this run is a fault-free one and must get its copy
+	// (liveness once faults have stopped).  Faults injected into this run's own
+	// requests excuse failures.
+	anyFault := false
 	for _, r := range sc.Reqs {
 		if len(r.Faults) > 0 || r.CrashAt > 0 {
 			anyFault = true
 		}
 	}
 	if anyFault {
-		res.Probes["runs-with-faults-or-debris"]++
+		res.Probes["runs-with-injected-faults"]++
+	} else if len(sc.Debris) > 0 {
+		res.Probes["runs-fault-free-after-a-crashed-predecessor"]++
 	} else {
 		res.Probes["runs-fault-free"]++
 	}
-	res.Nontrivial = len(sc.Reqs) >= 2 && s.Preempts > 0 || kl.hostile || anyFault
+	res.Nontrivial = len(sc.Reqs) >= 2 && s.Preempts > 0 || kl.hostile || anyFault || len(sc.Debris) > 0
 	cls, det := "", ""
 	set := func(c, d string) {
 		if cls == "" {
@@ -731,7 +745,7 @@ func (prop) Run(scx driver.Scenario, ch *sim.Choices, keep bool) *driver.Result 
 					}
 				}
 			} else if !anyFault && mustSucceed {
-				set("request-failed", fmt.Sprintf("request %d failed on a well-formed %s archive without any injected fault: %s", i, sc.Format, errText(w, o.err)))
+				set("request-failed", fmt.Sprintf("request %d failed on a well-formed %s archive without any injected fault (leftovers of an earlier crashed process: %v): %s", i, sc.Format, sc.Debris, errText(w, o.err)))
 			}
 		}
 		if derr == nil && checkable {
@@ -746,7 +760,7 @@ func (prop) Run(scx driver.Scenario, ch *sim.Choices, keep bool) *driver.Result 
 		}
 	}
 	// observations (not violations): does debris of failed requests block later ones?
-	if cls == "" && anyFault {
+	if cls == "" && (anyFault || len(sc.Debris) > 0) {
 		failed := 0
 		for _, o := range outs {
 			if o.returned && o.err != nil {
